@@ -163,7 +163,7 @@ G_TRANSFORM = [r_transform.rule_TP1, r_transform.rule_WIN, r_transform.rule_CANC
 G_WIRE = [r_wire.rule_W1, r_wire.rule_W2, r_wire.rule_W3, r_wire.rule_W4]
 G_APPLY = [r_taskdb.rule_A1, r_taskdb.rule_L1, r_taskdb.rule_L2, _T1_commit]
 G_SNAP = [r_storage.rule_N3, r_storage.rule_N3_overrides, r_storage.rule_N4, r_storage.rule_N5]
-G_SQLITE = [r_storage.rule_D, r_storage.rule_D6, r_storage.rule_Q1, r_storage.rule_Q2, r_storage.rule_Q3, r_storage.rule_Q4, r_storage.rule_Q5]
+G_SQLITE = [r_storage.rule_D, r_storage.rule_D6, r_storage.rule_Q1, r_storage.rule_Q2, r_storage.rule_Q3, r_storage.rule_Q4, r_storage.rule_Q5, r_storage.rule_Q7]
 G_INMEM = [r_storage.rule_Q6]
 G_SRV = [r_servers.rule_P1, r_servers.rule_P2, r_servers.rule_P4, r_servers.rule_P5, r_servers.rule_A1_local, r_servers.rule_A1_drop, _K_core, r_servers.rule_K7,
          r_servers.rule_GI, r_servers.rule_GC, r_servers.rule_GC3, r_servers.rule_GC4, r_servers.rule_GS1]
